@@ -1,4 +1,5 @@
 import XetModel.Merkle
+import XetModel.HashText
 import Driver.Prims
 namespace Xet.Drv
 open Xet.Merkle
@@ -41,6 +42,16 @@ def handleHash (blob : Blob) (cmd : String) (toks : List String) : String :=
     | some h => s!"ok {hashHex h}"
     | none => "err"
   | "hex.parse", [] => "err"
+  | "hash.b64", [t] =>
+    match parseHash t with
+    | some h => String.ofList ((Hash.base64 h).map fun b => Char.ofNat b.toNat)
+    | none => "bad-op"
+  | "hash.fromb64", [t] =>
+    -- a character outside Latin-1 cannot be an alphabet character: map it to a byte that is none either
+    match Hash.fromBase64 (t.toList.map fun c => if c.toNat < 256 then UInt8.ofNat c.toNat else 0) with
+    | some h => s!"ok {hashHex h}"
+    | none => "err"
+  | "hash.fromb64", [] => "err"
   | "hashedwrite", [off, len, bufs, accepts] =>
     -- sequence of `write_all(buf_i)` on a writer accepting `accepts[j]` bytes at its j-th call
     match off.toNat?, len.toNat? with
